@@ -3,6 +3,54 @@ import json, os
 V = os.path.dirname(os.path.dirname(os.path.abspath(__file__)))
 props = [json.loads(l)["id"] for l in open(os.path.join(V, "properties.jsonl"))]
 CHECKS = {
+ "C03": dict(
+   text="Coq theorem C03_scan_total (Props/C03.v; proofs Scope/TotalProofs*.v, Gsm/HasNameProofs.v, Gsm/UnambProofs.v): for "
+        "EVERY token list (any kinds, texts, positions, lengths, nesting) and every language, scan_file returns OK — each error "
+        "branch of the model (ambiguity, next() on no name token, list index, tokens.index, min/max of empty, fuel) is shown "
+        "unreachable, given per-pattern boolean certificates (unambiguous, every match contains a name token) that the kernel "
+        "evaluates on the patterns captured from /repo on this run; analyze (lex + scan + line total) is total too. The part "
+        "the model cannot exhibit (Pygments termination, decoding, path arithmetic and exit codes of check/scan) is covered by "
+        "running the malformed stream through scan_file, scan_command and check_command (5 ways of naming, non-UTF-8 bytes, "
+        "1200-deep nesting) and real subprocesses.",
+   note="Partial by nature: lexer termination and OS/file-system behaviour are oracles; check_command/scan_command path and "
+        "decoding logic is exercised, not proved (see C11/C12 for its model). Trusted: Coq kernel incl. vm_compute; capture.py; "
+        "the scope model (validated by correspondence in C01/C05/C03).",
+   technique="Rocq proof of totality (unreachability of every error branch) with kernel-computed certificates on captured patterns + malformed-input differential runs",
+   ref="DESIGN.md section 5, C03"),
+ "C04": dict(
+   text="Coq theorems (Props/C04.v; proofs Scope/ShiftProofs*.v): scan_file depends on its tokens only through the code tokens "
+        "and the lines of marker comments, so inserting/deleting white-space and non-marker comment tokens anywhere changes "
+        "nothing; relabelling the lines of the code tokens by ANY strictly monotone map (no line inserted inside a multi-line "
+        "token) yields the same functions, names, order, columns and lengths with every reported line mapped — proved stage by "
+        "stage (sorting keys, line grouping, indentation blocks, marker lines, distinct-line counts).  The assumption that an "
+        "insertion leaves the Pygments code tokens unchanged up to line numbers is checked per insertion on a vendored "
+        "real-world corpus and generated programs.",
+   note="Trusted: Coq kernel; scope model (tie H); the lexer-stability assumption is validated per case (violating insertions "
+        "are skipped and counted in the evidence).",
+   technique="Rocq proof (commutation of every pipeline stage with monotone line relabelling and noise insertion) + corpus insertion sweep",
+   ref="DESIGN.md section 5, C04"),
+ "C16": dict(
+   text="Coq theorems (Props/C16.v; proofs Tok/LexProofs.v): for every text and every lexer output satisfying the Pygments "
+        "contract, each kept token's line is 1 + the number of line breaks before it, its column counts from the line start, "
+        "location_to_index of the reported position is the token's offset and the text there is the token's text; kept tokens "
+        "are strictly increasing and non-overlapping; white space is never kept, comments exactly when requested; the "
+        "single-line fast path is only an optimisation.  Tie: stub lexer over every text of length<=5 x every segmentation "
+        "(37k model evaluations per quick run) and the seven real lexers.",
+   note="Trusted: Coq kernel; model Tok/Lex.v (tie H); Pygments contract is an oracle asserted on every text lexed.",
+   technique="Rocq proof (incremental newline scan = from-scratch count, split_lines arithmetic) + exhaustive stub-lexer correspondence",
+   ref="DESIGN.md section 5, C16"),
+ "C17": dict(
+   text="Coq theorems (Props/C17.v; proofs Scope/MarkerProofs*.v): exact characterisation of marker texts (leader #, ;, //, /* "
+        "+ optional white space + 'nocl', case-insensitive, or bare prefix); a candidate function is reported iff no marker "
+        "comment sits on the line of its name, order preserved (pre-order of the nesting forest = insertion order, for every "
+        "list); non-interference: marking a function unrelated by nesting to all others removes exactly its measurement and "
+        "leaves every other measurement identical (stack-fold analysis; counterexamples show the ordering hypothesis is "
+        "necessary).  Tie: generated programs with random marked subsets, all comment styles, decoys.",
+   note="Trusted: Coq kernel; scope model (tie H); str.lower()/strip() modelled on code points (ASCII lower-casing; harness "
+        "judges non-ASCII samples with Python only).",
+   technique="Rocq proof (string lemmas, fold/unfold invariants, removal of an unrelated root) + generated marked programs",
+   ref="DESIGN.md section 5, C17"),
+
  "C13": dict(
    text="Coq theorems (Props/C13.v, 7; proofs in Gsm/{ClosureProofs,NfaProofs,DfaProofs}.v, ~2500 lines) over a structural "
         "model of the engine (heap of State objects, Concat as node copy, epsilon_closure with visited set, lazy subset "
